@@ -284,6 +284,26 @@ pub fn run(ctx: &mut Ctx) {
         let p = payload::tail_structured(&mut ctx.rng, i % 4 == 0);
         ctx.eval(&RoundTrip { p, full: false });
     }
+    // boundary lengths around 2^8 and 2^16 (frame body a multiple of 256 / 65536 with 0..3 pad bytes), and long
+    // runs of one byte
+    let mut k = 0u64;
+    for len in [252usize, 253, 254, 255, 256, 257, 258, 259, 260, 508, 509, 510, 511, 512, 65531, 65532, 65533, 65534, 65535, 65536, 65537, 65538, 65539, 65540] {
+        for fill in [None, Some(0x1bu8), Some(0x00)] {
+            k += 1;
+            if !ctx.mine(k) {
+                continue;
+            }
+            if len > 60000 && fill == Some(0x1b) && ctx.quick() && len % 2 == 1 {
+                continue;
+            }
+            let p = match fill {
+                None => ctx.rng.bytes(len),
+                Some(b) => vec![b; len],
+            };
+            ctx.eval(&RoundTrip { p, full: false });
+            ctx.bump("boundary_length_payloads");
+        }
+    }
     // real meter payloads
     for (i, p) in crate::corpus::payloads().iter().enumerate() {
         if ctx.mine(i as u64) {
